@@ -196,7 +196,7 @@ type EdgeTessellator struct {
 func NewEdgeTessellator(p Projection, tolerance s1.Angle) *EdgeTessellator {
 	return &EdgeTessellator{
 		projection:      p,
-		scaledTolerance: s1.ChordAngleFromAngle(maxAngle(tolerance, minTessellationTolerance)),
+		scaledTolerance: s1.ChordAngleFromAngle(s1.Angle(tessellationScaleFactor) * maxAngle(tolerance, minTessellationTolerance)),
 	}
 }
 
